@@ -13,6 +13,7 @@ import Yae.Driver.Conv
 import Yae.Driver.Sql
 import Yae.Driver.Debug
 import Yae.Driver.ValRel
+import Yae.Model.Facade
 namespace Yae.Driver
 open Yae SExp
 
@@ -87,6 +88,25 @@ def handle (req : SExp) : SExp :=
       | .ok v => .list [.atom "ok", valToSExp v, evs]
       | .error f => .list [.atom "fail", failToSExp f, evs]
     | _, _, _, _ => .atom "bad-request"
+  | .list [.atom "pipeline", .list ops, times, funs, tvars, vars, ext, src] =>
+    -- the whole facade from the source text: lex, parse, desugar, check, env check, evaluate
+    match ops.mapM operOfSExp, timeTableOfSExp times, funsOfSExp funs, tvarsOfSExp tvars,
+        varsOfSExp vars, externsOfSExp ext, decStr src with
+    | some ops, some times, some funs, some tvars, some vars, some ext, some src =>
+      let Γ : TEnv := { vars := tvars, funs := funs, reserved := reservedWords }
+      let ρ : REnv := { vars := vars, funs := funs, ext := ext }
+      match Facade.evalSrc ops times Γ ρ src with
+      | (.ok v, evs) => .list [.atom "ok", valToSExp v, SExp.list (evs.map eventToSExp)]
+      | (.error (.fail f), evs) => .list [.atom "fail", failToSExp f, SExp.list (evs.map eventToSExp)]
+      | (.error (.compile (.lex _)), _) => .list [.atom "err", .atom "syntax"]
+      | (.error (.compile (.parse .externMiss)), _) => .list [.atom "err", .atom "extern-miss"]
+      | (.error (.compile (.parse _)), _) => .list [.atom "err", .atom "syntax"]
+      | (.error (.compile .desugar), _) => .list [.atom "err", .atom "unreachable"]
+      | (.error (.compile (.check e)), _) => .list [.atom "err", checkErrToSExp e]
+      | (.error (.env .undefined), _) => .list [.atom "err", .atom "env-undefined"]
+      | (.error (.env .mismatch), _) => .list [.atom "err", .atom "env-mismatch"]
+      | (.error (.env .mixed), _) => .list [.atom "err", .atom "env-mixed"]
+    | _, _, _, _, _, _, _ => .atom "bad-request"
   | _ => (handleNum req).getD (.atom "bad-request")
 
 partial def loop (hin hout : IO.FS.Stream) : IO Unit := do
